@@ -32,7 +32,7 @@ import (
 )
 
 const preamble = `From Coq Require Import String List NArith ZArith.
-From Fabio Require Import Lib.Outcome Lib.Bytes Lib.Pack Model.Redirect Model.RedirectSpec Model.RedirectTag Model.RedirectProto Check.C13.
+From Fabio Require Import Lib.Outcome Lib.Bytes Lib.Pack Model.Redirect Model.RedirectSpec Model.RedirectTag Model.RedirectProto Model.RedirectNoGlob Check.C13.
 Import ListNotations.
 Local Open Scope N_scope.
 `
@@ -1762,6 +1762,203 @@ func main() {
 		}
 		srvPlain.Close()
 		srvTLS.Close()
+	}
+
+	// =====================================================================================
+	// 7. round 8: Table.Lookup with GLOB MATCHING DISABLED (glob.matching.disabled=true, the last
+	// argument of Table.Lookup as main.go passes cfg.GlobMatchingDisabled).  Every class above
+	// calls Lookup with globDisabled=false; here the same kinds of tables - in particular
+	// HOST-LESS redirect routes, requests whose Host no table host matches, table hosts written
+	// with the default port, glob patterns (literal keys in this mode) - are served in that mode.
+	// The case carries EVERY host key of the real table with what Table.lookup yields for it
+	// (hook VerifC13HostView); which of them are visited is computed by the model
+	// (matching_noglob) and judged by the specification's own decision (same_hostb).  The same
+	// table and request are also served with glob matching enabled (class serve-noglob-control,
+	// case CServe).  Own rand source.
+	// =====================================================================================
+	{
+		rn := rand.New(rand.NewSource(run.Seed*49979687 + 17))
+		serveNG := func(class string, lines []string, descs []tdesc, q rdesc, control bool) {
+			text := strings.Join(lines, "\n")
+			tbl, err := route.NewTable(bytes.NewBufferString(text))
+			if err != nil {
+				run.Exclude("route table rejected")
+				return
+			}
+			idOf := map[*route.Target]int{}
+			seen := 0
+			for _, rts := range tbl {
+				for _, rt := range rts {
+					for _, t := range rt.Targets {
+						var id int
+						if _, err := fmt.Sscanf(t.Service, "svc%d", &id); err != nil || id >= len(descs) {
+							continue
+						}
+						descs[id].code = t.RedirectCode
+						idOf[t] = id
+						seen++
+					}
+				}
+			}
+			if seen != len(descs) {
+				run.Exclude("route table rejected")
+				return
+			}
+			optT := func(t *route.Target) string {
+				if t == nil {
+					return vh.None
+				}
+				return vh.Some(coqTarget(descs[idOf[t]]))
+			}
+			hosts, targets, fb := route.VerifC13HostView(tbl, httpReq(q), pick5, match5)
+			var tv []string
+			for i, h := range hosts {
+				tv = append(tv, vh.Pair(vh.HxS(h), optT(targets[i])))
+			}
+			tr := &countingRT{}
+			up := -1
+			p := &proxy.HTTPProxy{Config: config.Proxy{}, Transport: tr, Lookup: func(req *http.Request) *route.Target {
+				t := tbl.Lookup(req, "", pick5, match5, gc5, true)
+				if t != nil {
+					fmt.Sscanf(t.Service, "svc%d", &up)
+				}
+				return t
+			}}
+			w := httptest.NewRecorder()
+			panicked, pval := vh.Recover(func() { p.ServeHTTP(w, httpReq(q)) })
+			_, hasLoc := w.Header()["Location"]
+			resp, ok := coqResp(w.Code, w.Header().Get("Location"), hasLoc, tr.n, up, panicked, pval)
+			sample := map[string]interface{}{"glob.matching.disabled": true, "routes": text, "host": q.host, "request": uri(q.wire, q.query),
+				"x-forwarded-proto": q.xfp, "tls": q.tls, "status": w.Code, "location": w.Header().Get("Location"), "upstream_hits": tr.n,
+				"upstream_hosts": tr.hosts}
+			if !ok {
+				run.Violation(run.NextID(), fmt.Sprintf("ServeHTTP (glob matching disabled) on a redirect table ended in an unclassifiable way (status %d, panic %v)", w.Code, pval), sample)
+				return
+			}
+			run.Add(class, vh.App("CServeNG", vh.List(tv), optT(fb), vh.HxS(q.wire), coqReq(q), resp, vh.Nat(tr.n)), sample)
+			if control {
+				d2 := append([]tdesc(nil), descs...)
+				serveTable("serve-noglob-control", lines, d2, q)
+			}
+		}
+		upstream := func(id int, src string) (string, tdesc) {
+			dst := fmt.Sprintf("http://10.0.0.%d:80/", id+1)
+			u, _ := url.Parse(dst)
+			return fmt.Sprintf("route add svc%d %s %s", id, src, dst), tdesc{id: id, tmpl: dst, u: u}
+		}
+		redirect := func(id int, src, tmpl, code, strip, prepend string) (string, tdesc, bool) {
+			u, err := url.Parse(tmpl)
+			if err != nil || strings.ContainsAny(tmpl, " \"") || (u.Scheme == "" && u.Host == "") {
+				return "", tdesc{}, false
+			}
+			opts := "redirect=" + code
+			if strip != "" {
+				opts += " strip=" + strip
+			}
+			if prepend != "" {
+				opts += " prepend=" + prepend
+			}
+			return fmt.Sprintf("route add svc%d %s %s opts \"%s\"", id, src, tmpl, opts), tdesc{id: id, tmpl: tmpl, u: u, strip: strip, prepend: prepend}, true
+		}
+
+		// 7a. directed: a HOST-LESS redirect route (the first form of docs/feature/http-redirects.md)
+		// alone or beside routes of named hosts, asked for under hosts the table knows / does not know
+		for _, fbSrc := range []string{"/", "/docs"} {
+			for _, tmpl := range []string{"https://www.foo.com$path", "https://$host/new$path", "https://www.foo.com/"} {
+				for shape := 0; shape < 5; shape++ {
+					for _, host := range []string{"intranet.local", "example.com", "a.example.com", "EXAMPLE.com:80", "example.com:443"} {
+						for _, isTLS := range []bool{false, true} {
+							var lines []string
+							var descs []tdesc
+							l, d, _ := redirect(0, fbSrc, tmpl, []string{"302", "301", "307", "308"}[rn.Intn(4)], "", "")
+							lines, descs = append(lines, l), append(descs, d)
+							switch shape {
+							case 1: // a service on the table's own host
+								l, d := upstream(1, "example.com/")
+								lines, descs = append(lines, l), append(descs, d)
+							case 2: // a glob pattern: a literal key in this mode
+								l, d := upstream(1, "*.example.com/")
+								lines, descs = append(lines, l), append(descs, d)
+							case 3: // the usual http -> https pair on the named host
+								l, d, _ := redirect(1, "example.com:80/", "https://example.com$path", "301", "", "")
+								lines, descs = append(lines, l), append(descs, d)
+								l2, d2 := upstream(2, "example.com/")
+								lines, descs = append(lines, l2), append(descs, d2)
+							case 4: // a named host whose routes do not cover the path
+								l, d := upstream(1, "example.com/other")
+								lines, descs = append(lines, l), append(descs, d)
+								l2, d2 := upstream(2, "unrelated.org/")
+								lines, descs = append(lines, l2), append(descs, d2)
+							}
+							wire := []string{"/docs/setup", "/docs", "/docs/a%2Fb", "/"}[rn.Intn(4)]
+							q, ok := mkReq(host, wire, []string{"", "", "v=2"}[rn.Intn(3)], []string{"", "", "", "http", "https"}[rn.Intn(5)], isTLS)
+							if !ok {
+								run.Exclude("request line does not parse")
+								continue
+							}
+							serveNG("serve-noglob-hostless", lines, descs, q, shape == 0 && !isTLS)
+						}
+					}
+				}
+			}
+		}
+
+		// 7b. random tables in the manner of serve-random-table / serve-self-redirect
+		ngRouteHosts := []string{"", "", "example.com", "example.com:80", "example.com:443", "example.com:8080", "*.example.com", "*.com", "*", "other.org"}
+		ngReqHosts := []string{"example.com", "example.com", "Example.COM", "example.com:80", "EXAMPLE.com:80", "example.com:443", "example.com:8080",
+			"www.example.com", "intranet.local", "other.org", "10.1.2.3:9999"}
+		ngCodes := []string{"301", "302", "303", "307", "308", "300", "399", "301", "302", "400", "299", "0", "3x1"}
+		for i := 0; i < run.Scale(250, 6000); i++ {
+			host := ngReqHosts[rn.Intn(len(ngReqHosts))]
+			wire := randWire(rn, []string{"", "", "/x"}[rn.Intn(3)])
+			q, ok := mkReq(host, wire, queries[rn.Intn(len(queries))], []string{"", "", "http", "https"}[rn.Intn(4)], rn.Intn(3) == 0)
+			if !ok {
+				run.Exclude("request line does not parse")
+				continue
+			}
+			var lines []string
+			var descs []tdesc
+			used := map[string]bool{}
+			usedDst := map[string]bool{}
+			self := rn.Intn(3) == 0
+			for k := 1 + rn.Intn(4); k > 0; k-- {
+				rh := ngRouteHosts[rn.Intn(len(ngRouteHosts))]
+				rp := []string{"/", "/", "/x"}[rn.Intn(3)]
+				if used[rh+rp] {
+					continue
+				}
+				id := len(descs)
+				if rn.Intn(4) == 0 {
+					l, d := upstream(id, rh+rp)
+					used[rh+rp] = true
+					lines, descs = append(lines, l), append(descs, d)
+					continue
+				}
+				tmpl := schemes[rn.Intn(2)] + "://" + tmplHosts[rn.Intn(len(tmplHosts))] + tmplPaths[rn.Intn(len(tmplPaths))] + tmplQueries[rn.Intn(len(tmplQueries))]
+				if self || rn.Intn(4) == 0 { // a template that points back at the request
+					sc := schemes[rn.Intn(2)]
+					tmpl = []string{sc + "://$host$path", sc + "://$host/$path", sc + "://" + q.host + "$path", sc + "://" + q.host + q.wire}[rn.Intn(4)]
+				}
+				strip, prepend := "", ""
+				if rn.Intn(4) == 0 {
+					strip = []string{"/x", "/a", "/abc"}[rn.Intn(3)]
+				}
+				if rn.Intn(6) == 0 {
+					prepend = "/pre"
+				}
+				l, d, ok := redirect(id, rh+rp, tmpl, ngCodes[rn.Intn(len(ngCodes))], strip, prepend)
+				if !ok || usedDst[d.u.Host] {
+					continue
+				}
+				usedDst[d.u.Host] = true
+				used[rh+rp] = true
+				lines, descs = append(lines, l), append(descs, d)
+			}
+			if len(lines) == 0 {
+				continue
+			}
+			serveNG("serve-noglob-random", lines, descs, q, i%4 == 0)
+		}
 	}
 
 	run.Finish(preamble, (len(run.Cases)+15)/16+1)
